@@ -339,7 +339,45 @@ class _TAProxy:
         return _TA[k]
 
 
+class _TooLong(Exception):
+    pass
+
+
+_SLOW = [0]
+
+
+def _cpu_bounded(f: Any, seconds: float = 1.0) -> Any:
+    """f() under a CPU-time budget (ITIMER_VIRTUAL counts this process's own CPU time, so machine load does not matter): an
+    expression that denotes a handful of numbers must not expand into billions."""
+    import signal
+    import threading
+
+    if threading.current_thread() is not threading.main_thread() or signal.getitimer(signal.ITIMER_VIRTUAL)[0] > 0:
+        return f()  # (an enclosing budget is already running)
+
+    def on_alarm(signum: int, frame: Any) -> None:
+        raise _TooLong()
+
+    old = signal.signal(signal.SIGVTALRM, on_alarm)
+    signal.setitimer(signal.ITIMER_VIRTUAL, seconds)
+    try:
+        return f()
+    finally:
+        signal.setitimer(signal.ITIMER_VIRTUAL, 0)
+        signal.signal(signal.SIGVTALRM, old)
+
+
 def check(case: dict[str, Any]) -> list[tuple[str, str]]:
+    if _SLOW[0] >= 5:
+        return []  # this process has already reported five runaway cases: the rest of its work is skipped, not waited for
+    try:
+        return _cpu_bounded(lambda: _check(case), 1.5)
+    except _TooLong:
+        _SLOW[0] += 1
+        return [(f"C20/{case.get('kind', '?')}/takes-forever", f"{str(case)[:200]}: no result after 1.5 s of CPU time")]
+
+
+def _check(case: dict[str, Any]) -> list[tuple[str, str]]:
     """Returns [(bucket, message)] for one case (JSON form accepted)."""
     pydantic = _TAProxy
 
@@ -428,7 +466,10 @@ def check(case: dict[str, Any]) -> list[tuple[str, str]]:
                                         ("Ranges[spaces]", lambda: pydantic.TypeAdapter(Ranges).validate_python(expr.replace(",", "  ")))]
         for name, f in forms:
             try:
-                got = f()
+                got = _cpu_bounded(f)
+            except _TooLong:
+                out.append((f"C20/ranges/{name}/takes-forever", f"{expr!r}: no result after 2 s of CPU time (expected {len(expect)} numbers)"))
+                return out
             except Exception as e:  # noqa: BLE001
                 out.append((f"C20/ranges/{name}/raises", f"{expr!r}: {type(e).__name__}: {e}"))
                 continue
@@ -442,7 +483,10 @@ def check(case: dict[str, Any]) -> list[tuple[str, str]]:
                   ("Ranges2D[list]", lambda: pydantic.TypeAdapter(Ranges2D).validate_python(list(case["tokens"])))]
         for name, f in forms2:
             try:
-                got = f()
+                got = _cpu_bounded(f)
+            except _TooLong:
+                out.append((f"C20/ranges2d/{name}/takes-forever", f"{expr!r}: no result after 2 s of CPU time"))
+                return out
             except Exception as e:  # noqa: BLE001
                 out.append((f"C20/ranges2d/{name}/raises", f"{expr!r}: {type(e).__name__}: {e}"))
                 continue
@@ -518,7 +562,19 @@ def shards(tier: str) -> list[dict[str, Any]]:
     return out
 
 
+def _limit_memory() -> None:
+    """A range expression that denotes a handful of numbers must not expand into billions: inside one C-level call that cannot be
+    interrupted, so the address space of this worker process is capped instead (the runaway then ends in a MemoryError)."""
+    import resource
+
+    soft, hard = resource.getrlimit(resource.RLIMIT_AS)
+    cap = 3 * 2**30
+    if soft == resource.RLIM_INFINITY or soft > cap:
+        resource.setrlimit(resource.RLIMIT_AS, (cap, hard))
+
+
 def run_shard(spec: dict[str, Any], seed: int) -> Collector:
+    _limit_memory()
     col = Collector()
 
     def body(case: dict[str, Any]) -> None:
@@ -543,6 +599,7 @@ def run_shard(spec: dict[str, Any], seed: int) -> Collector:
 
 
 def replay(witness: Any) -> list[tuple[str, str]]:
+    _limit_memory()
     return check(unjson(witness))
 
 
